@@ -7,8 +7,14 @@ V = Path(__file__).resolve().parent.parent
 props = [json.loads(l)["id"] for l in (V / "properties.jsonl").read_text().splitlines() if l.strip()]
 checks = []
 claimed = set()
+# only properties the coordinator has accepted (complete, quiet on /repo) are registered
+registered = set(json.loads((V / "harness" / "meta" / "registered.json").read_text()))
 for pid in props:
+    if pid not in registered:
+        continue
     f = V / "harness" / "meta" / f"{pid}.json"
+    if f.name in ("registered.json", "not_applicable.json"):
+        continue
     if not f.exists() or not (V / "harness" / f"{pid.lower()}.py").exists():
         continue
     m = json.loads(f.read_text())
